@@ -113,12 +113,18 @@ def run_history(ctx, program, history, modes, tag, nocache_graph=False):
     root_logger.addHandler(cap)
     root_logger.setLevel(logging.INFO)
     tapstate = {"logreq": 0, "logged_eval": 0, "hits": 0, "computed": 0}
+    stored_by_ds = {}
 
     def on_event(phase, kind, request, stack, result):
         if phase == "call" and kind == "log":
             tapstate["logreq"] += 1
         elif phase == "call" and kind == "evaluate" and isinstance(request.evaluatable, Logged):
             tapstate["logged_eval"] += 1
+        if phase == "call" and kind == "cache_set":
+            for label, c in G.caches:
+                if request.cache is c and label.startswith("ds"):
+                    stored_by_ds[label[2:].split("/")[0] if "/" not in label else label[2:]] = stored_by_ds.get(label[2:], 0) + 1
+                    break
         if kind in ("cache_exists", "cache_get") and any(request.cache is c for label, c in G.caches if label.startswith("ds")):
             # dataset evaluations not served from the cache = lookups - successful retrievals (failed ones count too)
             # (only lookups made by an evaluation: validate() also asks whether a value exists)
@@ -141,6 +147,7 @@ def run_history(ctx, program, history, modes, tag, nocache_graph=False):
             n_rec = len(cap.records)
             for k in tapstate:
                 tapstate[k] = 0
+            stored_by_ds.clear()
             if em == "toggle":
                 for ds in list(G.ds_objs.values()) + list(G.derived.values()) + list(G.overload_ds.values()):
                     ds.disable_effects()
@@ -208,6 +215,13 @@ def run_history(ctx, program, history, modes, tag, nocache_graph=False):
                     if [dict(c.store) for c in caches[: len(store0)]] != store0:
                         ctx.violation("cache-off-changes-store", f"step {step} cache mode {cm}: stored entries changed", W)
                         return
+            if em == "on":
+                # effects on: every computed (not served-from-cache) value of a dataset fires each of its effects once
+                expected_effects = sum(n_ * len(program["datasets"][d_].get("effects", [])) for d_, n_ in stored_by_ds.items() if d_ in program["datasets"])
+                ctx.count("effects_on_steps")
+                if len(effects) != expected_effects:
+                    ctx.violation("effects-on-but-count-wrong", f"step {step}: {len(effects)} effect calls, {expected_effects} expected from the datasets that were computed {dict(stored_by_ds)}", W)
+                    return
             if em != "on":
                 ctx.count("effects_off_steps")
                 if effects:
